@@ -152,6 +152,12 @@ def run(rep, tier, seed, model_ok=True, effort=1):
             strs.remove(s)
             continue
         objs[s] = v
+        try:
+            v_again = bv.parse_version(s)
+            if v_again._key != v._key or not (v_again == v) or str(v_again) != str(v):
+                rep.violation("parsing the same string twice gives different versions", input=dict(s=s, first=repr(v._key), second=repr(v_again._key)), **{"class": "parse-not-stable"})
+        except Exception as ex:
+            rep.violation("parse_version raised %r on the second parse of a string" % ex, input=dict(s=s), **{"class": "parse-raises"})
         is_ver = isinstance(v, sv.Version)
         rep.case(s)
         rep.count("class=" + ("pep440" if is_ver else "legacy"))
